@@ -119,6 +119,15 @@ pub const MODE_COUNT_AT: u64 = 4; // then count()
 pub const MODE_LAST_AT: u64 = 5; // then last()
 pub const MODE_NTH_AT: u64 = 6; // nth(prefix) first, then next() to the end
 pub const MODES_PROVIDED: [u64; 4] = [MODE_FOLD_AT, MODE_COUNT_AT, MODE_LAST_AT, MODE_NTH_AT];
+/// Prefix value standing for `usize::MAX` (`nth(usize::MAX)`, i.e. `skip(usize::MAX)`: nothing is handed out).
+pub const PREFIX_MAX: u64 = 0xFF_FFFF;
+fn prefix_of(prefix: u64) -> usize {
+    if prefix == PREFIX_MAX {
+        usize::MAX
+    } else {
+        prefix as usize
+    }
+}
 
 /// Number of `next()` calls made before `finish_iter`.
 pub fn iter_limit(mode: u64, prefix: u64) -> usize {
@@ -134,7 +143,7 @@ pub fn iter_complete(mode: u64) -> bool {
 }
 /// Number of items handed out in total when `total` are available.
 pub fn iter_expect(mode: u64, prefix: u64, total: usize) -> usize {
-    let p = (prefix as usize).min(total);
+    let p = prefix_of(prefix).min(total);
     match mode {
         MODE_CONSUME | MODE_FOLD_AT => total,
         MODE_LAST_AT => p + (total > p) as usize,
@@ -162,7 +171,7 @@ pub fn finish_iter<I: Iterator>(mut it: I, mode: u64, prefix: u64, sink: &mut dy
             None
         }
         MODE_NTH_AT => {
-            if let Some(x) = it.nth(prefix as usize) {
+            if let Some(x) = it.nth(prefix_of(prefix)) {
                 sink(x)
             }
             for x in it.by_ref() {
@@ -183,7 +192,7 @@ pub fn iter_post(what: &str, mode: u64, prefix: u64, total: usize, handed_out: u
         return Err(Viol::new("mismatch", format!("{} (mode {}, prefix {}) handed out {} items, expected {} of {}", what, mode, prefix, handed_out, e, total)));
     }
     if let Some(c) = counted {
-        let rest = total - (prefix as usize).min(total);
+        let rest = total - prefix_of(prefix).min(total);
         if c != rest {
             return Err(Viol::new("mismatch", format!("{}: count() after {} items = {}, but {} were left", what, prefix, c, rest)));
         }
